@@ -30,7 +30,7 @@ func init() {
 		},
 		Run:            c13Run,
 		Floor:          func(tier string) int { return 3000 },
-		Rule:           "signatures with 1..3 graph inputs of rank 1..4 whose dimensions are each fixed / symbolic / unspecified (symbolic non-leading axes included), some inputs shadowed by initializers, some declared but not consumed by any node; identity-like graphs (one Relu per consumed input) so that acceptance is observable as a correct value; supplied sets: a name omitted, permuted insertion order, extra names (also named like a pure initializer), a rank from 0..5, one axis resized to {declared-1, declared+1, 1, 7}, the tensor object of an earlier conforming Run reshaped in place by its owner; each supplied set is judged on a freshly loaded model, after one conforming Run, or after conforming Run + rejected empty set + conforming Run on the same Model (acceptance must not depend on earlier calls). Oracle (Appendix A.12): accepted iff every non-initializer input is present with the declared rank and matching fixed dimensions; on rejection Run returns an error and nil outputs, the operator proxy sees no apply event and no supplied tensor changes; on acceptance every output equals relu(input) and extra tensors change nothing; a supplied value for a shadowed input replaces the initializer. Introspection: InputNames/ParamNames/InputShapes/InputDimSize agree with the declaration and with what Run enforces (dynamic <=> every probed size accepted). Non-trivial = the supplied set deviates from the declaration in exactly one respect or exercises a symbolic/unspecified dimension; distinct = (signature, deviation).",
+		Rule:           "signatures with 1..3 graph inputs of rank 1..4 whose dimensions are each fixed / symbolic / unspecified (symbolic non-leading axes included), some inputs shadowed by initializers, some declared but not consumed by any node; identity-like graphs (one Relu per consumed input) so that acceptance is observable as a correct value; supplied sets: a name omitted, permuted insertion order, extra names (also named like a pure initializer), a rank from 0..5, one axis resized to {declared-1, declared+1, 1, 7}, the tensor object of an earlier conforming Run reshaped in place by its owner; each supplied set is judged on a freshly loaded model, after one conforming Run, or after conforming Run + rejected empty set + conforming Run on the same Model (acceptance must not depend on earlier calls). Oracle (Appendix A.12): accepted iff every non-initializer input is present with the declared rank and matching fixed dimensions; on rejection Run returns an error and nil outputs, the operator proxy sees no apply event and no supplied tensor changes; on acceptance every output equals relu(input) and extra tensors change nothing; a supplied value for a shadowed input replaces the initializer. In a quarter of the cases the caller scribbles over the values returned by InputShapes()/InputNames() before the Run. Introspection: InputNames/ParamNames/InputShapes/InputDimSize agree with the declaration and with what Run enforces (dynamic <=> every probed size accepted). Non-trivial = the supplied set deviates from the declaration in exactly one respect or exercises a symbolic/unspecified dimension; distinct = (signature, deviation).",
 		RaceInThorough: true,
 		Technique:      "runtime monitoring: acceptance oracle from the declared signature, proxy trace check (no apply before/after a rejection), deep fingerprints of supplied tensors, introspection cross-check",
 		Assumptions:    []string{"element types are not part of the checked signature (the statement speaks of rank and dimensions only)"},
@@ -60,7 +60,7 @@ func c13Run(c *Ctx) {
 			concrete[d] = r.Range(1, 5)
 			switch r.Intn(4) {
 			case 0:
-				in.dims[d] = mon.Dim{Param: r.PickStr("N", "batch", "seq", "")}
+				in.dims[d] = mon.Dim{Param: r.PickStr("N", "batch", "seq", "", "N", "batch", "7", "16", "+4", "007", "0", "-1", "1e3")}
 				if in.dims[d].Param == "" {
 					in.dims[d] = mon.Dim{Unset: true}
 				}
@@ -266,6 +266,25 @@ func c13Run(c *Ctx) {
 			_ = prior(map[string]*ref.T{})
 			if err := prior(conforming); err != nil {
 				return nil, fmt.Errorf("earlier conforming Run after a rejected one: %w", err)
+			}
+		}
+		if c.Idx%4 == 2 {
+			// what the introspection methods return belongs to the caller: scribbling over it
+			// must not change what Run enforces (nor what the next introspection call reports)
+			sh := m.InputShapes()
+			for k, dims := range sh {
+				for i := range dims {
+					dims[i].Size += 3
+					dims[i].IsDynamic = !dims[i].IsDynamic
+					dims[i].Name = "scribbled"
+				}
+				if len(k)%2 == 0 {
+					delete(sh, k)
+				}
+			}
+			names := m.InputNames()
+			for i := range names {
+				names[i] = "scribbled"
 			}
 		}
 		priorEvents = len(px.Events())
